@@ -236,7 +236,37 @@ impl Prop for C20 {
         };
         let m = gen::file(&mut s, &cfg);
         let mut toks: Vec<String> = render::render(&m).toks.iter().map(|t| t.text.clone()).collect();
-        let text = match s.below(3) {
+        let text = match s.below(4) {
+            3 => {
+                // the same garbage member injected at several member positions (consecutive
+                // recovered errors with the same expectation set)
+                let r = render::render(&m);
+                let term = if matches!(m.item, crate::model::ItemM::Enum(_)) { "," } else { ";" };
+                let ng = s.below(4);
+                let garbage: Vec<String> = (0..ng)
+                    .map(|_| loop {
+                        let t = mutate::clean_vocab_token(&mut s);
+                        if t != ";" && t != "{" && t != "}" && t != "," {
+                            break t;
+                        }
+                    })
+                    .collect();
+                let mut positions: Vec<usize> = r.members.iter().map(|ms| ms.first_tok).collect();
+                positions.push(r.body_close);
+                let reps = s.range(2, 4);
+                let mut out: Vec<String> = Vec::new();
+                for (i, t) in toks.iter().enumerate() {
+                    if positions.contains(&i) {
+                        let n = if i == r.body_close { reps } else { 1 + s.below(2) };
+                        for _ in 0..n {
+                            out.extend(garbage.iter().cloned());
+                            out.push(term.to_owned());
+                        }
+                    }
+                    out.push(t.clone());
+                }
+                out.join(if s.flip() { " " } else { "\n" })
+            }
             0 => {
                 let cut = s.below(toks.len());
                 toks.truncate(cut);
